@@ -4,6 +4,15 @@ NOTES = ("Every check re-compiles coq/theories/Properties/<id>.v (theorems over 
          "implementation. See DESIGN.md. known_findings.json lists recorded defects; replays/ is written only on failure.")
 NOT_APPLICABLE = {}
 CLAIMS = {
+    "C11": {
+        "text": "Theorems (all masters / sources, closed under the global context): the fetch result is exactly map (restar (requested ...)) master - alternatives, order, quotes, "
+                "lines kept and the starred set characterised by the declarative predicate 'requested' (None clears; '+' names; last word naming k decides) (C11_selection, "
+                "C11_alternatives_kept, C11_last_occurrence_decides, C11_none_clears); errors characterised in both directions (unknown selected -> NotAChoice naming the value and "
+                "listing the master's alternatives; every error is such; unselected unknown names ignored); extraction: at most one name / master order / never empty when "
+                "mandatory; fetch-then-extract composition. Refutations by witness: F9 (upper-case '+' name), shadowed star ('x *x'), residual '*' outside wf.",
+        "note": "Trusted: Coq kernel, extraction, driver, harness, hand-written model of choice_converters (fetch, from_words, as_words, __str__). No oracles. "
+                "wf_choice_master (names distinct up to case, no residual '*', not none/auto) is a stated hypothesis only where names matter.",
+    },
     "C14": {
         "text": "Theorems (all strings / target lists, closed under the global context): get_path_score equals the declarative 9-class classification (C14_score_spec) "
                 "with find/startswith/endswith given list-level specs; the numeric order is exactly the property's preference order (C14_order, iff); a full path among "
